@@ -8,6 +8,8 @@ steps.  Excluded inputs (stated as theorems at the end): `f = 0` (panic), `s = 0
 tempering drivers (no progress), and `T < f` for the returned energy of the measuring loop (0/0).
 -/
 import QmcProofs.Stepper
+import QmcProps.C16Sampler
+import QmcProps.C16
 
 namespace Qmc.C17
 
@@ -82,6 +84,68 @@ theorem measure_zip_calls {τ : Type v} (items : List τ) (samples : List σ) :
   simpa using this samples items []
 
 end measure
+
+/-! ### the offset of a generic sampler: only ACCEPTED constructor calls count (after seed C17-17)
+
+`measure_energy` takes the sampler's offset as a parameter. For the generic sampler `Qmc` the offset is
+what the `make_*interaction*` calls left in `Qmc::offset` (model: QmcModel/QmcCtor.lean, tied to
+/repo by check C16 mode `qmcctor` and by the `genericm` / `generict` lines of this check). A call that
+returns `Err` contributes nothing, whatever the diagonal of the matrix it was given. -/
+
+section ctor
+open Qmc.QmcCtor
+
+/-- The offset after any sequence of constructor calls: the initial one minus the shifts reported by
+the calls that were ACCEPTED (`contribution` is `none` exactly for a call that returns `Err`, see
+`rejected_iff_no_contribution`; the shift of an accepted `*_and_offset` call is the smallest diagonal
+entry of its matrix — `Qmc.C16.newOffset_spec`, `Qmc.C16.newDiagonalOffset_spec` — and 0 for the
+plain constructors, `standalone`). -/
+theorem ctor_offset_accepted_only (s : State) (cs : List Call) :
+    (runCalls s cs).offset = s.offset - ((cs.filterMap (contribution s.nvars)).map (·.2)).sum := by
+  rw [runCalls_eq]
+  exact (foldl_apply1_closed _ s).2.1
+
+/-- a call returns something else than `Ok` exactly when it has no contribution -/
+theorem rejected_iff_no_contribution (s : State) (c : Call) :
+    (make c.kind s c.mat c.vars).1 ≠ .ok () ↔ contribution s.nvars c = none := by
+  unfold contribution
+  cases hst : standalone c.kind c.mat c.vars with
+  | ok r =>
+    obtain ⟨I, d⟩ := r
+    cases hr : outOfRange s.nvars c.vars with
+    | true => rw [make_of_ok_out s hst hr]; simp
+    | false => obtain ⟨sym, _, hm⟩ := make_of_ok_in s hst hr; rw [hm]; simp
+  | err => rw [make_of_err s hst]; simp
+  | panic => exact absurd hst (standalone_ne_panic _ _ _)
+
+/-- a rejected call anywhere in the sequence is invisible: the sampler is the one built without it -/
+theorem rejected_call_invisible (s : State) (cs cs' : List Call) (c : Call)
+    (h : (make c.kind (runCalls s cs) c.mat c.vars).1 ≠ .ok ()) :
+    runCalls s (cs ++ c :: cs') = runCalls s (cs ++ cs') := by
+  have hs : (make c.kind (runCalls s cs) c.mat c.vars).2 = runCalls s cs :=
+    Qmc.C16.qmc_make_reject_leaves_state _ _ _ _ h
+  unfold runCalls at hs ⊢
+  rw [List.foldl_append, List.foldl_append, List.foldl_cons, hs]
+
+/-- `measure_energy` for a generic sampler built by the calls `cs` from a state `s`: the returned
+energy is `-<n>/β + offset` with `<n>` the mean of `n` over exactly the sampled steps and the offset
+made of the ACCEPTED calls only. -/
+theorem measure_energy_accepted_calls {σ : Type u} {α : Type v} (step : σ → σ) (n : σ → Nat) (fold : α → σ → α)
+    {f : Nat} (hf : 0 < f) (T : Nat) (hT : f ≤ T) (s0 : σ) (a0 : α) (β : Rat) (s : State) (cs : List Call) :
+    measureEnergy β (runCalls s cs).offset (measureLoop step n fold T f s0 a0) =
+      some (-(((sumTo (fun k => n (iter step ((k + 1) * f) s0)) (T / f) : Nat) : Rat) / ((T / f : Nat) : Rat) / β) +
+        (s.offset - ((cs.filterMap (contribution s.nvars)).map (·.2)).sum)) := by
+  rw [measure_energy step n fold hf T hT, ctor_offset_accepted_only]
+
+/-- … and a sampler that is reused after a rejected call (before, between or after the accepted ones)
+returns the energy of the sampler that never saw the call. -/
+theorem measure_energy_rejected_call_invisible {σ : Type u} {α : Type v} (r : MState σ α) (β : Rat)
+    (s : State) (cs cs' : List Call) (c : Call)
+    (h : (make c.kind (runCalls s cs) c.mat c.vars).1 ≠ .ok ()) :
+    measureEnergy β (runCalls s (cs ++ c :: cs')).offset r = measureEnergy β (runCalls s (cs ++ cs')).offset r := by
+  rw [rejected_call_invisible s cs cs' c h]
+
+end ctor
 
 /-! ### the chunk loop of `timesteps_sample` / `parallel_timesteps_sample` -/
 
@@ -281,5 +345,47 @@ example : ValidSched [1, 0, 0, 1, 1, 0] 2 3 := by
   rcases this with h | h <;> subst h <;> decide
 
 example : (tickState twoCounters 2 ([0, 10], ()) 3).1 = [13, 3] := by decide
+
+/-! the constructor corollaries: a REJECTED call with a non-zero smallest diagonal entry (variable named twice, identity
+matrix on two variables: shift 1) and an ACCEPTED one with a non-zero shift (`zz` coupling: shift −1) -/
+
+section ctorExamples
+open Qmc.QmcCtor
+
+def rejectedCall : Call := ⟨.newOff, [1,0,0,0, 0,1,0,0, 0,0,1,0, 0,0,0,1], [0, 0]⟩
+def acceptedCall : Call := ⟨.diagOff, [-1, 1, 1, -1], [0, 1]⟩
+
+theorem rejectedCall_rejected (s : State) : (make rejectedCall.kind s rejectedCall.mat rejectedCall.vars).1 ≠ .ok () := by
+  intro hok
+  obtain ⟨⟨⟨I, d⟩, hst⟩, _⟩ := (Qmc.C16.qmc_make_accepts_iff _ _ _ _).mp hok
+  have := (standalone_wf hst).nodup
+  simp [rejectedCall] at this
+
+theorem acceptedCall_contribution : ∃ I, contribution 2 acceptedCall = some (I, -1) := by
+  obtain ⟨_, h2, h3⟩ := Qmc.C16.newDiagonalOffset_spec [-1, 1, 1, -1] [0, 1]
+  obtain ⟨⟨I, d⟩, hr⟩ := h2.mpr ⟨⟨by simp, by simp⟩, by simp⟩
+  obtain ⟨hd, hmin, _⟩ := h3 I d hr
+  have hd1 : d = -1 := by
+    have := hmin (-1) (by simp)
+    simp at hd
+    rcases hd with rfl | rfl | rfl
+    · rfl
+    · norm_num at this
+    · rfl
+  subst hd1
+  exact ⟨I, by simp [contribution, acceptedCall, standalone, hr, outOfRange]⟩
+
+/-- a two-variable sampler built by the rejected call, the accepted one, the rejected one again: offset 1, the shift of
+the rejected matrix (1 each time) is nowhere -/
+example : (runCalls (State.init 2) [rejectedCall, acceptedCall, rejectedCall]).offset = 1 := by
+  have h1 : contribution 2 rejectedCall = none :=
+    (rejected_iff_no_contribution (State.init 2) rejectedCall).mp (rejectedCall_rejected _)
+  obtain ⟨I, h2⟩ := acceptedCall_contribution
+  rw [ctor_offset_accepted_only]
+  have hn : (State.init 2).nvars = 2 := rfl
+  rw [hn]
+  simp [List.filterMap, h1, h2, State.init]
+
+end ctorExamples
 
 end Qmc.C17
